@@ -1,1 +1,298 @@
-fn main(){}
+//! vnative — engine N: generated cases executed against the real crate in an isolated worker
+//! process on this x86-64 host.  See /verif/DESIGN.md §2.1.
+
+mod arena;
+mod driver;
+mod hist;
+mod hist_judge;
+mod interpose;
+mod maps;
+mod mem;
+mod place;
+mod targets;
+mod worker;
+
+use driver::{signal_name, Exec, Worker};
+use serde_json::{json, Value};
+use std::time::Duration;
+use vcommon::{arg_value, cases, out_path, run_prop, Recorder};
+
+/// worker-side request dispatch
+pub fn dispatch(req: &Value) -> Value {
+    let op = req["op"].as_str().unwrap_or("");
+    match op {
+        "place" => match serde_json::from_value::<place::PlaceCase>(req["case"].clone()) {
+            Ok(c) => serde_json::to_value(place::execute(&c)).unwrap(),
+            Err(e) => json!({"harness_error": format!("bad place case: {e}")}),
+        },
+        "hist" => match serde_json::from_value::<hist::HistCase>(req["case"].clone()) {
+            Ok(c) => {
+                let opts: hist::Opts = serde_json::from_value(req["opts"].clone()).unwrap_or_default();
+                serde_json::to_value(hist::execute(&c, &opts)).unwrap()
+            }
+            Err(e) => json!({"harness_error": format!("bad hist case: {e}")}),
+        },
+        "ping" => json!({"pong": true}),
+        _ => json!({"harness_error": format!("unknown op {op}")}),
+    }
+}
+
+pub fn shards() -> usize {
+    std::env::var("VERIF_SHARDS").ok().and_then(|s| s.parse().ok()).unwrap_or(8)
+}
+
+/// Runs `total` generated cases split over parallel shards, each with its own worker process
+/// and its own proptest runner (stream = base_stream*64 + shard).
+pub fn run_sharded<C, S, J>(rec: &mut Recorder, base_stream: u64, total: u64, nshards: usize, op: &str, opts: Value, timeout: Duration, mk_strategy: impl Fn() -> S + Sync, judge: J, wrap: impl Fn(&C) -> Value + Sync)
+where
+    C: Clone + std::fmt::Debug + serde::Serialize + Send,
+    S: proptest::strategy::Strategy<Value = C>,
+    J: Fn(&mut Recorder, &C, Exec, &Value) -> Result<(), String> + Sync,
+{
+    let nshards = nshards.max(1);
+    let per = (total / nshards as u64).max(1);
+    let subs: Vec<Recorder> = std::thread::scope(|s| {
+        let hs: Vec<_> = (0..nshards)
+            .map(|sh| {
+                let judge = &judge;
+                let mk_strategy = &mk_strategy;
+                let wrap = &wrap;
+                let opts = &opts;
+                let (prop, engine, rule) = (rec.property.clone(), rec.engine.clone(), rec.rule.clone());
+                s.spawn(move || {
+                    let mut sub = Recorder::new(&prop, &engine, &rule);
+                    let mut w = Worker::spawn(&format!("{prop}-{engine}-{sh}"));
+                    let hello = w.hello.clone();
+                    if hello["works"] != json!(true) || hello["saw_mmap"] != json!(true) || hello["saw_mprotect"] != json!(true) || hello["saw_flush"] != json!(true) {
+                        sub.inconclusive.push(format!("worker calibration failed: {hello}"));
+                        return sub;
+                    }
+                    let out = run_prop(base_stream * 64 + sh as u64, per, mk_strategy(), |c: &C| {
+                        let ex = w.exec(&json!({"op": op, "case": c, "opts": opts}), timeout);
+                        let r = judge(&mut sub, c, ex, &hello);
+                        if r.is_err() {
+                            sub.freeze();
+                        }
+                        r
+                    });
+                    if let Some((case, msg)) = out.failure {
+                        let sig = msg.split(']').next().unwrap_or("").trim_start_matches('[').to_string();
+                        sub.unfreeze();
+                        sub.violation(&sig, &msg, wrap(&case));
+                    }
+                    sub.count("worker_processes", w.spawned);
+                    sub
+                })
+            })
+            .collect();
+        hs.into_iter().map(|h| h.join().expect("shard")).collect()
+    });
+    for s in subs {
+        rec.absorb(s);
+    }
+}
+
+// ------------------------------------------------------------------------------------------------
+// C01 (native)
+
+fn judge_place(rec: &mut Recorder, c: &place::PlaceCase, ex: Exec, _hello: &Value) -> Result<(), String> {
+    use place::*;
+    let prop = rec.property.clone();
+    let obs: PlaceObs = match ex {
+        Exec::Timeout => {
+            rec.count("watchdog", 1);
+            if rec.counters.get("watchdog").copied().unwrap_or(0) > 3 {
+                rec.inconclusive.push(format!("worker watchdog expired repeatedly; last case {c:?}"));
+            }
+            return Ok(());
+        }
+        Exec::Died { signal, code, phase, stderr_tail } => {
+            rec.eval(|| json!({"case": c, "outcome": "worker died"}));
+            let s = signal.map(signal_name).unwrap_or("exit");
+            return rec.fail(&format!("{prop}/native/died/{s}/{phase}"), format!("worker died ({s} {signal:?} code {code:?}) in phase '{phase}' while executing {c:?}; stderr: {stderr_tail}"));
+        }
+        Exec::Obs(v) => {
+            if let Some(e) = v.get("harness_error") {
+                rec.inconclusive.push(format!("harness error: {e}"));
+                return Ok(());
+            }
+            match serde_json::from_value(v) {
+                Ok(o) => o,
+                Err(e) => {
+                    rec.inconclusive.push(format!("bad observation: {e}"));
+                    return Ok(());
+                }
+            }
+        }
+    };
+    let o = &obs;
+    if o.status == "discarded" {
+        rec.count("discarded", 1);
+        rec.class("discarded");
+        return Ok(());
+    }
+    rec.eval(|| json!({"case": c, "target": format!("{:#x}", o.target_addr), "trampoline_page": o.tramp_page.map(|p| format!("{p:#x}")), "fake": o.fake_addr.map(|p| format!("{p:#x}")), "status": o.status, "decode": o.decode_trace, "calls": o.calls}));
+    let tclass = match &c.target {
+        TargetSel::Real(_) => "real".to_string(),
+        TargetSel::Synth { class, .. } => CLASS_RANGES[*class as usize % 5].2.to_string(),
+    };
+    let sig = |s: &str| format!("{prop}/native/{s}");
+    if o.status == "refused" {
+        rec.count("refused", 1);
+        rec.class(&format!("{tclass}/refused"));
+        if o.during != o.pre {
+            return rec.fail(&sig("refused-but-target-modified"), format!("installation panicked ({:?}) but the target's bytes changed: {:02x?} -> {:02x?}; case {c:?}", o.panic, &o.pre[..16], &o.during[..16]));
+        }
+        return Ok(());
+    }
+    // installed
+    let flav = match &c.fake {
+        FakeSel::Rust { kind, .. } => format!("{kind:?}"),
+        FakeSel::Synth { api, .. } => format!("synth-api{}", api % 3),
+    };
+    rec.class(&format!("{tclass}/{}{}", flav, if o.straddles { "/straddle" } else { "" }));
+    let long_tramp = o.decode_trace.iter().any(|t| t.contains("movabs"));
+    if long_tramp {
+        rec.class("trampoline=long");
+    } else {
+        rec.class("trampoline=short-or-stub");
+    }
+    if !o.executed {
+        return rec.fail(&sig("wrong-or-undecodable-destination"), format!("patched entry does not lead to the fake: end {} hops {:x?} trace {:?} expected dest {:x?}; case {c:?}", o.decode_end, o.decode_hops, o.decode_trace, o.expected_dest));
+    }
+    if let Some(r) = o.ret_rax {
+        if r & 0xFF != o.expected_value & 0xFF {
+            return rec.fail(&sig("stub-returns-wrong-value"), format!("stub returns {r:#x}, expected {}; trace {:?}", o.expected_value, o.decode_trace));
+        }
+    }
+    for (i, v) in o.calls.iter().enumerate() {
+        if *v != o.expected_value {
+            return rec.fail(&sig("call-returned-wrong-value"), format!("call #{i} (0 = installing thread, others = extra threads) returned {v}, the fake returns {}; case {c:?}", o.expected_value));
+        }
+    }
+    if o.orig_runs_during != 0 {
+        return rec.fail(&sig("original-body-ran"), format!("the original body ran {} time(s) while faked; case {c:?}", o.orig_runs_during));
+    }
+    rec.count("installed_and_called", 1);
+    // non-trivial placements
+    let d_edge = match &c.fake {
+        FakeSel::Synth { d, .. } => (d - i32::MAX as i64).abs() <= 16 || (d - i32::MIN as i64).abs() <= 16,
+        _ => false,
+    };
+    if o.straddles || o.target_addr < (1 << 27) || long_tramp || d_edge {
+        rec.nontrivial(&(o.target_addr, o.tramp_page, o.fake_addr, &flav, o.straddles));
+    }
+    Ok(())
+}
+
+fn cmd_place(prop: &str) -> i32 {
+    let rule = "N: real crate, worker process with ASLR off; generated (target address class incl. in-page offset, dictated trampoline page in +/-128 MiB, fake displacement from the trampoline incl. +/-2^31 edge and far, API flavour, caller threads); entry and trampoline decoded by the mini-decoder, then really called; non-trivial = installed-and-called case that is page-straddling, below 128 MiB, uses the long trampoline form or has a fake displacement within 16 of +/-2^31; distinct by (target, trampoline page, fake, flavour)";
+    let mut rec = Recorder::new(prop, "n-place", rule);
+    rec.assumptions.push("x86-64 Linux host; symbol interposition of mmap/munmap/mprotect/__clear_cache by the executable (calibrated at worker start)".into());
+    let n = cases(2400, 120_000);
+    run_sharded(&mut rec, 1, n, shards(), "place", Value::Null, Duration::from_secs(20), place::strategy, judge_place, |c| json!({"PlaceCase": c}));
+    rec.finish(&out_path())
+}
+
+fn hist_setup(prop: &str) -> (hist::Opts, &'static str, &'static str) {
+    match prop {
+        "C03" => (hist::Opts { snapshots: true, logs: false, detail_limit: 0 }, "n-hist-snap", "N: generated install histories (targets with live neighbours at +/-16 bytes in synthetic arenas, last slot of a page, two instantiations of one generic, libc labs) with a full snapshot of every readable executable mapping before the first injector, after every step and after every scope exit; oracle: history invariant - differing bytes within 16 bytes of a named target or in a trampoline page the injector was seen to create, nothing else; bystanders return their own values; non-trivial = install on a target packed between live neighbours / generic instantiation / libc function; distinct by (lifetime, target, kind, address)"),
+        "C12" => (hist::Opts { snapshots: false, logs: true, detail_limit: 6 }, "n-hist-cycles", "N: generated create/install/drop cycles (0..8 installs per cycle, mixed kinds, repeated targets, normal and unwinding exits), repeated up to thousands of times per case; oracle: history invariant on the interposed mmap/munmap log (every kept mapping released exactly once with a covering length, no foreign/duplicate munmap) and /proc/self/maps (executable anonymous pages after == before); non-trivial = cycle with >= 2 installs incl. a repeated target or two kinds; distinct by cycle shape"),
+        "C17" => (hist::Opts { snapshots: false, logs: true, detail_limit: 0 }, "n-hist-flush", "N: generated install histories; observation points before/after every install and after scope exit; oracle: every byte that differs between two points (target entry, trampoline vs. fresh zero page, restored entry) lies in an interposed __clear_cache range issued in between whose captured content at that byte equals the final content; non-trivial = every install/restore with >= 1 changed byte; distinct by (lifetime, target, kind, address, trampoline)"),
+        _ => (hist::Opts { snapshots: false, logs: false, detail_limit: 0 }, "n-hist", "N: generated histories of 1..4 injector lifetimes x 0..8 steps (Install{target with repetition, kind raw/closure/fake!/boolean/unchecked, fake} | Call) over 9 real + 0..3 synthetic targets, exit normal or unwinding, many lifetimes per worker process; oracle: reference model (per-target stack: latest installation in effect while alive) + round trip (first 32 bytes of every target == pristine and original value after every lifetime); non-trivial = lifetime with >= 2 installs on one target, or >= 3 targets with >= 2 kinds, or unwinding exit with >= 1 install; distinct by lifetime content"),
+    }
+}
+
+fn cmd_hist(prop: &str) -> i32 {
+    let (opts, engine, rule) = hist_setup(prop);
+    let mut rec = Recorder::new(prop, engine, rule);
+    rec.assumptions.push("x86-64 Linux host; symbol interposition of mmap/munmap/mprotect/__clear_cache by the executable (calibrated at worker start)".into());
+    let optv = serde_json::to_value(&opts).unwrap();
+    match prop {
+        "C03" => {
+            let n = cases(480, 16_000);
+            run_sharded(&mut rec, 3, n, shards(), "hist", optv, Duration::from_secs(120), || hist::strategy(2, 4, true), hist_judge::judge_c03, |c| json!({"HistCase": c, "opts": "C03"}));
+        }
+        "C12" => {
+            let n = cases(640, 12_000);
+            let thorough = vcommon::tier() == vcommon::Tier::Thorough;
+            run_sharded(&mut rec, 12, n, shards(), "hist", optv, Duration::from_secs(600), move || {
+                use proptest::prelude::*;
+                (hist::strategy(3, 8, false), if thorough { 1u32..=4000 } else { 1u32..=120 }, any::<bool>()).prop_map(|(mut c, r, many)| {
+                    c.repeat = if many { r } else { 1 + r % 4 };
+                    c
+                })
+            }, hist_judge::judge_c12, |c| json!({"HistCase": c, "opts": "C12"}));
+        }
+        "C17" => {
+            let n = cases(1600, 80_000);
+            run_sharded(&mut rec, 17, n, shards(), "hist", optv, Duration::from_secs(60), || hist::strategy(2, 6, true), hist_judge::judge_c17, |c| json!({"HistCase": c, "opts": "C17"}));
+        }
+        _ => {
+            let n = cases(2400, 120_000);
+            run_sharded(&mut rec, 2, n, shards(), "hist", optv, Duration::from_secs(60), || hist::strategy(4, 8, false), hist_judge::judge_c02, |c| json!({"HistCase": c, "opts": "C02"}));
+        }
+    }
+    rec.finish(&out_path())
+}
+
+fn cmd_replay(path: &str) -> i32 {
+    let txt = std::fs::read_to_string(path).expect("read replay");
+    let v: Value = serde_json::from_str(&txt).expect("json");
+    let prop = v["property"].as_str().unwrap_or("C00").to_string();
+    let case = &v["case"];
+    let mut rec = Recorder::new(&prop, "n-replay", "replay of one saved case (50 repetitions for scheduled cases)");
+    let mut w = Worker::spawn("replay");
+    let hello = w.hello.clone();
+    let r = if let Some(c) = case.get("PlaceCase") {
+        let c: place::PlaceCase = serde_json::from_value(c.clone()).expect("PlaceCase");
+        let ex = w.exec(&json!({"op": "place", "case": c}), Duration::from_secs(30));
+        judge_place(&mut rec, &c, ex, &hello)
+    } else if let Some(c) = case.get("HistCase") {
+        let c: hist::HistCase = serde_json::from_value(c.clone()).expect("HistCase");
+        let (opts, _, _) = hist_setup(&prop);
+        let ex = w.exec(&json!({"op": "hist", "case": c, "opts": opts}), Duration::from_secs(600));
+        match prop.as_str() {
+            "C03" => hist_judge::judge_c03(&mut rec, &c, ex, &hello),
+            "C12" => hist_judge::judge_c12(&mut rec, &c, ex, &hello),
+            "C17" => hist_judge::judge_c17(&mut rec, &c, ex, &hello),
+            _ => hist_judge::judge_c02(&mut rec, &c, ex, &hello),
+        }
+    } else {
+        eprintln!("unknown case kind in {path}");
+        return 2;
+    };
+    match r {
+        Ok(()) => {
+            println!("replay: property {prop} holds on this case (known hits {:?}, counters {:?}, inconclusive {:?})", rec.known_hits, rec.counters, rec.inconclusive);
+            if rec.inconclusive.is_empty() { 0 } else { 2 }
+        }
+        Err(m) => {
+            println!("replay: {m}");
+            println!("VIOLATION property={prop} replay={path}");
+            1
+        }
+    }
+}
+
+fn main() {
+    let args: Vec<String> = std::env::args().collect();
+    let cmd = args.get(1).map(|s| s.as_str()).unwrap_or("");
+    let prop = arg_value("--property");
+    let code = match cmd {
+        "worker" => worker::main(),
+        "place" => cmd_place(prop.as_deref().unwrap_or("C01")),
+        "hist" => cmd_hist(prop.as_deref().unwrap_or("C02")),
+        "replay" => cmd_replay(args.get(2).expect("replay <file>")),
+        "calibrate" => {
+            worker::install_panic_hook();
+            println!("{}", worker::calibrate());
+            0
+        }
+        _ => {
+            eprintln!("usage: vnative place|history|...|replay <file> [--property ID] [--out file]");
+            2
+        }
+    };
+    std::process::exit(code);
+}
